@@ -234,6 +234,15 @@ func (b *DirectoryBackend) osPath(path string) (string, error) {
 		b.log.WithField("path", path).Warn("invalid key path used")
 		return "", api.ErrInvalidPath
 	}
+	// filepath.Join() has already cleaned "fullPath", so the comparison above never fires.
+	// Make sure that the result names something strictly below the root directory:
+	// "..", "../x", "a/../../x" would otherwise read, create, replace or move files outside of it,
+	// and "" or "a/.." would name the root directory itself.
+	relPath, err := filepath.Rel(filepath.Clean(b.root), fullPath)
+	if err != nil || relPath == "." || relPath == ".." || strings.HasPrefix(relPath, ".."+string(os.PathSeparator)) {
+		b.log.WithField("path", path).Warn("invalid key path used")
+		return "", api.ErrInvalidPath
+	}
 	return fullPath, nil
 }
 
